@@ -308,15 +308,51 @@ def _rigid(kind, ms, tier='quick'):
 contract("C19", "composite_rigid_motion", [SC + "composite:Scatterers.rotated", SC + "composite:Scatterers.translated",
                                           SC + "scatterer:Scatterer.translated", SC + "sphere:Sphere.rotated",
                                           M + "rotate_points"],
-         bounded="1-3 members enumerated (values symbolic reals)", patches=_STUB)(_rigid('Spheres', [1, 2, 3]))
+         bounded="1-3 members enumerated (values symbolic reals); the argument test `ensure_array(coord1) == 3` in translated() is "
+                 "assumed false (its outcome is irrelevant: C20/translation explores all its branches)", patches=_STUB,
+         skip_eq_literals=(3,))(_rigid('Spheres', [1, 2, 3]))
 contract("C19", "composite_rigid_motion_4to6", [SC + "composite:Scatterers.rotated", SC + "composite:Scatterers.translated"],
          bounded="4-6 members enumerated (the property's range is 1-6)", patches=_STUB, tier='thorough',
-         timeout_ms=120000)(_rigid('Spheres', [4, 5, 6]))
+         timeout_ms=120000, skip_eq_literals=(3,))(_rigid('Spheres', [4, 5, 6]))
+
+
+def _nested(sizes):
+    def body(c):
+        n = sum(sizes)
+        sph, cs = _cluster(c, n)
+        inner, k = [], 0
+        for m in sizes:
+            inner.append(c.call(Spheres, sph[k:k + m]))
+            k += m
+        outer = c.call(Scatterers, inner)
+        a, b, g = c.angle("alpha"), c.angle("beta"), c.angle("gamma")
+        R = Rz(c, g).dot(Ry(c, b)).dot(Rz(c, a))
+        cents, k = [], 0
+        for m in sizes:
+            cents.append(sum(cs[k:k + m]) / m)
+            k += m
+        com = sum(cents) / len(sizes)
+        rot = c.call(outer.rotated, a, b, g)
+        new = [np.array(s.center) for sub in rot.scatterers for s in sub.scatterers]
+        for i in range(n):
+            c.ensures("member-rotated-about-common-centre", c.eq(new[i], com + R.dot(cs[i] - com)))
+        c.ensures("original-untouched", c.and_(*[c.eq(np.array(s.center), cs[i]) for i, s in enumerate(sph)]))
+    body.__doc__ = ("rotating a composite of composites (sub-cluster sizes %s) moves every primitive member rigidly: "
+                    "p -> com + R (p - com), com = mean of the sub-cluster centres" % (sizes,))
+    return body
+
+
+contract("C19", "nested_composite_rotation", [SC + "composite:Scatterers.rotated", SC + "composite:Scatterers.translated"],
+         bounded="a composite of two two-sphere clusters; translated()'s argument test assumed false (see composite_rigid_motion)",
+         patches=_STUB, timeout_ms=60000, max_paths=200, skip_eq_literals=(3,))(_nested((2, 2)))
+contract("C19", "nested_composite_rotation_dimer", [SC + "composite:Scatterers.rotated"],
+         bounded="a composite of a one-sphere and a two-sphere cluster, all 512 branch combinations of translated()'s argument test",
+         patches=_STUB, timeout_ms=60000, max_paths=1200, tier='thorough')(_nested((1, 2)))
 
 
 @contract("C19", "rigid_cluster", [SC + "spherecluster:RigidCluster.scatterers", SC + "spherecluster:RigidCluster.__init__",
                                    SC + "spherecluster:RigidCluster.from_parameters"],
-          bounded="2 members (composition of the two proved motions)", patches=_STUB)
+          bounded="2 members (composition of the two proved motions)", patches=_STUB, skip_eq_literals=(3,))
 def rigid_cluster(c):
     """RigidCluster's members are the base spheres rotated about their centroid, then translated"""
     sph, cs = _cluster(c, 2)
